@@ -18,13 +18,17 @@ RULE = ("kinds mat.histeq (exact tier) / mat.hist (float tiers) / mat.norms / ma
 TRUSTED = ["Coq 8.16.1 kernel + vm_compute", "Rust executor /verif/harness (Rat = i128 rationals)", "python driver: generators, list-of-rows reference model, stream comparators",
            "hand-written Gallina model coq/Model/{Matrix,MatOps,MatNorms}.v tied to src/matrix/*.rs by differential execution (Rat vs Qc exact; f64/Complex vs primitive floats)"]
 ASSUMPTIONS = ["Rust semantics of Vec/usize as modelled (checked indexing, debug overflow checks)", "the sampled cases are where model and code were compared; the theorems are about the model",
-               "norms_real only: the four standard-library axioms of the classical real numbers"]
-UNPROVED = ["round two: matvec_backward_error / matmul_backward_error (fl(Ax) = (A+dA)x, |dA| <= gamma_n |A|) in the standard model and at binary64 via Flocq; accuracy of the f64 norms and of libm's powf inside norm_p remains tie + search (the norm theorems are over exact order/real arithmetic with powf as a parameter)",
+               "norms_real only: the four standard-library axioms of the classical real numbers",
+               "norm_frob / norm_p at p = 2 of the float model use x*x for f64::powf(x, 2.0) and sqrt for powf(s, 0.5) (libm's pow is not specified to be correctly rounded: compared by tolerance)"]
+UNPROVED = ["norms_real, p-norm clause: stated with Coq's Rpower, for which Rpower 0 p = 1 (ln 0 = 0 by convention) whereas f64::powf(0, p) = 0 for p > 0: the clause "
+            "describes the order of operations (sum of p-th powers, then the 1/p-th power) and is meaningful on matrices without zero entries only; the value of norm_p on the "
+            "implementation is compared with an independent python reference by tolerance, entries equal to zero included",
+            "round two: matvec_backward_error / matmul_backward_error (fl(Ax) = (A+dA)x, |dA| <= gamma_n |A|) in the standard model and at binary64 via Flocq; accuracy of the f64 norms and of libm's powf inside norm_p remains tie + search (the norm theorems are over exact order/real arithmetic with powf as a parameter)",
             "history refinement (run_refines) covers the 18 checked editing operations; the raw (i,j) writes m[(i,j)]= / swap_elem (unchecked addressing, outside the claim) and /= scalar (own theorem mdiv_assign_scalar_spec) are tied and searched only",
             "operand non-mutation / owned=borrowed are run-time observations of the executor (a value model satisfies them vacuously)"]
 
 MANIFEST = dict(
-    text=("43 Coq theorems, all shapes / all entry values / all histories, no ring law assumed, about the flat row-major Gallina model of "
+    text=("%d Coq theorems," % ntheorems("C03") + " all shapes / all entry values / all histories, no ring law assumed, about the flat row-major Gallina model of "
           "src/matrix: one refinement theorem per operation (result is Ok - i.e. no index leaves the buffer -, wf and shape preserved, every "
           "entry equals its textbook definition; Panic Guard exactly when the documented range/shape condition fails) for index/get/set row/col, "
           "delete_row, resize, eye, all fills, swap, matrix*vector, + - neg scale div and the compound assignments, transpose_in_place (both "
